@@ -44,7 +44,7 @@ def ops():
             st.tuples(st.just("remove_class"), tokens(), pad, pad).map(list),
             st.tuples(st.just("has_class"), tokens()).map(list),
             st.tuples(st.just("add_style"), decls(), st.booleans(), st.booleans()).map(list),
-            st.tuples(st.just("add_style_bad"), st.one_of(st.sampled_from(["color: red", "", "a:b; c", " "]), gen.safe_text(0, 5).filter(lambda s: not s.endswith(";"))), st.booleans(), st.booleans()).map(list),
+            st.tuples(st.just("add_style_bad"), st.one_of(st.sampled_from(["color: red", "", "a:b; c", " ", "color:red; ", "a:b;\n", "x:y;\t", "k:v;;  "]), gen.safe_text(0, 5).filter(lambda s: not s.endswith(";"))), st.booleans(), st.booleans()).map(list),
         ),
         min_size=1,
         max_size=10,
@@ -172,7 +172,7 @@ def css_key_model(k: str) -> str:
 
 def css_case():
     key = st.one_of(
-        st.sampled_from(["font_size", "backgroundColor", "color", "MozBoxSizing", "margin_top_", "_webkit_x", "aB_cD", "XMLHttp", "a1_B2", "z__y"]),
+        st.sampled_from(["font_size", "fontSize", "backgroundColor", "background_color", "color", "MozBoxSizing", "margin_top_", "marginTop_", "_webkit_x", "aB_cD", "a_b_c_d", "XMLHttp", "a1_B2", "z__y", "font_Size"]),
         st.builds(lambda a, b: a + b, st.sampled_from("abcXYZ_"), st.text(alphabet="abcXYZ_09", max_size=8)),
     ).filter(lambda k: k != "collapse_" and k.isidentifier())
     val = st.one_of(st.none(), gen.safe_text(0, 5), st.sampled_from(["12px", "red", "", "a b", "url('x;y')", ";"]), st.integers(-5, 100), st.floats(allow_nan=False, allow_infinity=False, width=16), st.lists(gen.safe_text(1, 3), max_size=3))
@@ -219,7 +219,8 @@ def body_css(case, note):
             raised = type(e).__name__
         check(raised == "TypeError", f"css(collapse_={case['bad_collapse']!r}) expected TypeError, got {raised}")
     keys = [k for k, v in case["kw"] if v is not None]
-    note(len(keys) >= 2 and any(c.isupper() or c == "_" for k in keys for c in k), "none-only" if case["kw"] and not keys else "", "camel" if any(c.isupper() for k in keys for c in k) else "", "bad-collapse" if case["bad_collapse"] is not None else "")
+    collide = len({css_key_model(k) for k in keys}) < len(keys)
+    note(len(keys) >= 2 and any(c.isupper() or c == "_" for k in keys for c in k), "none-only" if case["kw"] and not keys else "", "camel" if any(c.isupper() for k in keys for c in k) else "", "bad-collapse" if case["bad_collapse"] is not None else "", "same-property-twice" if collide else "")
 
 
 def selftest():
@@ -236,5 +237,5 @@ RULE = (
 
 CLAUSES = [
     Clause("history", body_history, strategy=case_strategy, quick=1000, thorough=15000, shards_quick=3, required=("attribute-dropped", "removed-present", "style-rejected", "op:add_class", "op:add_style", "op:has_class"), rule="see RULE"),
-    Clause("css", body_css, strategy=css_case, quick=1200, thorough=15000, shards_quick=2, required=("none-only", "camel", "bad-collapse"), rule="see RULE"),
+    Clause("css", body_css, strategy=css_case, quick=1200, thorough=15000, shards_quick=2, required=("none-only", "camel", "bad-collapse", "same-property-twice"), rule="see RULE"),
 ]
